@@ -15,12 +15,16 @@ Inductive case :=
 | CSplit (p d f : bytes)                             (* path.Split(p) = d, f *)
 | CSpec (base : bytes) (opath odoc : option bytes) (b : bytes) (has_next : bool) (req : bytes) (o : obs)
   (* a UI middleware. The page itself is not shipped: skel = its markup-significant bytes, base_skel = those of the page
-     the same middleware renders for harmless option values; ref = the spec URL found in the page (default templates,
-     URL-safe spec URLs only) *)
+     the same middleware renders for harmless option values; ref = the spec URL found in the page (character references /
+     JavaScript escapes undone); ref_path = the URL path the server sees when a browser on that page requests ref (None: it is
+     not something that can be fetched over http), want_path = the same for the configured SpecURL itself *)
 | CUI (f : flavour) (opts : ui_opts) (has_next : bool) (req : bytes) (o : obs) (skel base_skel : bytes) (ref : option bytes)
-  (* an API handler flavour. abs: SpecURL is an absolute URL or an absolute path; ref: the spec URL found in the page served
-     at the UI path; ref_path: url.Parse(ref).Path; ref_serves: requesting ref_path from the same handler returns the spec *)
-| CAPI (f : flavour) (a : api_in) (req : bytes) (o : api_obs) (abs : bool) (ref : option bytes) (ref_path : bytes) (ref_serves : bool).
+      (ref_path want_path : option bytes)
+  (* an API handler flavour. abs: SpecURL is absent, an absolute path or an http(s) URL; ref, ref_path, want_path: as above, for
+     the page served at the UI path; ref_serves: that request, sent to the same handler, returns the spec; page: skel and
+     base_skel of that page *)
+| CAPI (f : flavour) (a : api_in) (req : bytes) (o : api_obs) (abs : bool) (ref : option bytes) (ref_path want_path : option bytes)
+       (ref_serves : bool) (page : option (bytes * bytes)).
 
 Definition obs_matches (ui : bool) (m : outcome) (o : obs) : bool :=
   match m, o with
@@ -40,6 +44,15 @@ Definition prop_handler (ui : bool) (pth : bytes) (ct : ctype) (body : bytes) (c
 Definition api_obs_eqb (m : api_outcome) (o : api_obs) : bool :=
   match m, o with ASpec, OASpec | AUI, OAUI | ARouter, OARouter => true | _, _ => false end.
 
+(* the page hands on the configured spec URL: literally when it is made of URL-safe bytes; in any case the request a
+   browser makes for the reference has the path of the request it would make for the spec URL itself *)
+Definition ref_faithful (spec_url r : bytes) (ref_path want_path : option bytes) : bool :=
+  (negb (url_safe spec_url) || bytes_eqb r spec_url) &&
+  match want_path with
+  | Some w => match ref_path with Some p => bytes_eqb p w | None => false end
+  | None => true
+  end.
+
 Definition check_case (c : case) : N :=
   match c with
   | CClean p r => verdict (bytes_eqb (clean p) r) true
@@ -48,23 +61,31 @@ Definition check_case (c : case) : N :=
   | CSpec base opath odoc b has_next req o =>
     verdict (obs_matches false (spec_handler base opath odoc b has_next req) o)
             (prop_handler false (spec_doc_path base opath odoc) CTJson b CTJson has_next req o)
-  | CUI f opts has_next req o skel base_skel ref =>
+  | CUI f opts has_next req o skel base_skel ref ref_path want_path =>
     let served := match o with OServe _ _ => true | _ => false end in
     let escaped := negb served || bytes_eqb skel base_skel in
     verdict (obs_matches true (serve_ui f opts [] has_next req) o && escaped &&
-             match ref with Some r => bytes_eqb r (u_spec_url (ensure_defaults opts)) | None => true end)
+             match ref with Some r => ref_faithful (u_spec_url (ensure_defaults opts)) r ref_path want_path | None => true end)
             (prop_handler true (ui_path f opts) CTHtml [] CTPlain has_next req o && escaped)
-  | CAPI f a req o abs ref ref_path ref_serves =>
+  | CAPI f a req o abs ref ref_path want_path ref_serves page =>
     (* no page can be fetched when the UI path coincides with the spec path (the Spec middleware comes first) *)
     let ui_shadowed := match api_handler f a (ui_path f (api_ui_opts a)) with AUI => false | _ => true end in
-    verdict (api_obs_eqb (api_handler f a req) o &&
+    let escaped := match page with Some (skel, base_skel) => bytes_eqb skel base_skel | None => true end in
+    verdict (api_obs_eqb (api_handler f a req) o && escaped &&
+             Bool.eqb ui_shadowed (match page with Some _ => false | None => true end) &&
              match ref with
-             | Some r => bytes_eqb r (api_spec_ref a) && negb ui_shadowed &&
-                         Bool.eqb ref_serves (match api_handler f a ref_path with ASpec => true | _ => false end)
+             | Some r => ref_faithful (api_spec_ref a) r ref_path want_path && negb ui_shadowed &&
+                         (* the oracle url.Parse(SpecURL).Path is, up to cleaning, the path a browser ends up requesting *)
+                         (negb (abs && rooted (a_url_path a)) ||
+                          match want_path with Some w => bytes_eqb (clean w) (clean (a_url_path a)) | None => false end) &&
+                         Bool.eqb ref_serves (match ref_path with
+                                              | Some p => match api_handler f a p with ASpec => true | _ => false end
+                                              | None => false end)
              | None => ui_shadowed
              end)
-            (* UI and spec URL agree whenever the location is absolute; only the two document paths are intercepted *)
-            (match ref with Some _ => negb abs || ref_serves | None => true end &&
+            (* UI and spec URL agree whenever the location is absolute; option values stay inert in the page; only the two
+               document paths are intercepted *)
+            (match ref with Some _ => negb abs || ref_serves | None => true end && escaped &&
              match o with
              | OASpec => bytes_eqb (clean req) (api_spec_path a)
              | OAUI => bytes_eqb (clean req) (ui_path f (api_ui_opts a))
